@@ -651,6 +651,50 @@ class ExecCall(ExecExpr):
 
     e_GeneratorExp = e_ListComp
 
+    def e_DictComp(self, node, st):
+        """{K: V for T in seq} / {K: V for i, x in enumerate(seq)} without filter: a fresh dictionary whose key set is the image of K
+        and where a key that occurs several times keeps the LAST value (CPython order of insertion)"""
+        w = self.w
+        if len(node.generators) != 1 or node.generators[0].ifs:
+            raise EngineError("dict comprehension with filter / nesting")
+        g = node.generators[0]
+        for s0, it in self.eval(g.iter, st):
+            enum = isinstance(it, VEnumerate)
+            seq = it.seq if enum else it
+            if isinstance(seq, (VList, VTuple)):
+                seq = self.to_seq(seq, self.kind_of(seq.items[0]) if seq.items else None)
+            if not self.is_symseq(seq):
+                raise EngineError("dict comprehension over non-sequence")
+            j = z3.Int(w.fresh_name("c"))
+            n = SLen(seq.t)
+            rng = z3.And(0 <= j, j < n)
+            s = s0.fork()
+            s.assume(rng)
+            base = len(s.pc)
+            s.env = dict(s0.env)
+            elem = self.seq_elem(s, seq, j)
+            self.bind_target(s, g.target, VTuple([V("int", j), elem]) if enum else elem)
+            kv = self.eval1(node.key, s)
+            vv = self.eval1(node.value, s)
+            if not isinstance(kv, V) or not isinstance(vv, V):
+                raise EngineError("dict comprehension with non-scalar key / value")
+            extra = s.pc[base:]
+            if extra:
+                s0.assume(z3.ForAll([j], z3.Implies(rng, z3.And(extra))))
+            kind = ("dict", kv.kind if not (isinstance(kv.kind, tuple) and kv.kind[0] == "ref" and kv.cls) else ("ref", w.short_name(kv.cls)), vv.kind)
+            d = V(kind, self.allocate_raw(s0, "dictcomp"))
+            has, val = self.dict_fns(kind)
+            ver = s0.version("dict")
+            kk = z3.Const(w.fresh_name("k"), kv.t.sort())
+            j2 = z3.Int(w.fresh_name("c"))
+            key_at = lambda idx: z3.substitute(kv.t, (j, idx))
+            val_at = lambda idx: z3.substitute(vv.t, (j, idx))
+            s0.assume(z3.ForAll([kk], has(ver, d.t, kk) == z3.Exists([j], z3.And(rng, kv.t == kk)), patterns=[has(ver, d.t, kk)]))
+            s0.assume(z3.ForAll([j], z3.Implies(z3.And(rng, z3.ForAll([j2], z3.Implies(z3.And(j < j2, j2 < n), key_at(j2) != kv.t))),
+                                                val(ver, d.t, kv.t) == vv.t)))
+            s0.assume(z3.ForAll([j], z3.Implies(rng, has(ver, d.t, kv.t))))
+            yield s0, d
+
     def filter_map(self, st, it, g, elt):
         w = self.w
         j = z3.Int(w.fresh_name("c"))
